@@ -2,6 +2,7 @@ CONSTANTS
   NThreads = 3
   K = 2
   Apis = {"cpu"}
+  Rezero = TRUE
   PublishEarly = FALSE
 SPECIFICATION Spec
 INVARIANTS CpuInfoStable
